@@ -178,29 +178,36 @@ def r_C13(root):
 def r_C07(root):
     out = []; inst = 0
     t = load(root, "textx/scoping/providers.py"); fn = find(t, "PlainName.__call__")
-    reg = next((s for s in fn.body if isinstance(s, ast.If) and "multi_metamodel_support" in ast.unparse(s.test)), None)
-    if reg is None: raise AnalysisError("PlainName: default branch not found")
-    names, rows = atoms.table(reg.body)
+    if "multi_metamodel_support" not in ast.unparse(fn): raise AnalysisError("PlainName: default branch not found")
+    # decision table of the whole provider body; the cardinality of the candidate list decides the outcome
+    body = [b for b in fn.body if not isinstance(b, (ast.FunctionDef, ast.Import, ast.ImportFrom)) and not (isinstance(b, ast.Expr) and isinstance(b.value, ast.Constant))]
+    names, rows = atoms.table(body)
     import operator as op
     OPS = {ast.Eq: op.eq, ast.NotEq: op.ne, ast.Lt: op.lt, ast.LtE: op.le, ast.Gt: op.gt, ast.GtE: op.ge}
     for n_, want in ((0, "none"), (1, "one"), (2, "raise")):
         inst += 1
         def holds(a):
             tt = ast.parse(a, mode="eval").body
-            if isinstance(tt, ast.Compare) and isinstance(tt.left, ast.Call) and getattr(tt.left.func, "id", "") == "len": return OPS[type(tt.ops[0])](n_, tt.comparators[0].value)
+            if ast.unparse(tt).replace(" ", "") == "self.multi_metamodel_support": return True
+            if isinstance(tt, ast.Compare) and isinstance(tt.ops[0], ast.Is) and isinstance(tt.left, ast.Name) and tt.left.id in {x.arg for x in fn.args.args} and isinstance(tt.comparators[0], ast.Constant) and tt.comparators[0].value is None: return False    # the provider is called with a reference
+            if isinstance(tt, ast.Compare) and isinstance(tt.left, ast.Call) and getattr(tt.left.func, "id", "") == "len" and isinstance(tt.comparators[0], ast.Constant): return OPS[type(tt.ops[0])](n_, tt.comparators[0].value)
             if isinstance(tt, ast.Name): return n_ > 0
+            if ast.unparse(tt).endswith(".debug"): return False          # debug output off
             raise AnalysisError("PlainName: unsupported atom " + a)
         sel = atoms.select(rows, holds)
         if len(sel) != 1: raise AnalysisError("PlainName: %d paths for cardinality %d" % (len(sel), n_))
         row = sel[0]
-        final = next((s for s in reversed(fn.body) if isinstance(s, ast.Return) and isinstance(s.value, ast.Name)), None)
-        resvar = final.value.id if final is not None else "result"
-        res = [ast.unparse(e.value) for e in row.effects if isinstance(e, ast.Assign) and ast.unparse(e.targets[0]) == resvar]
-        if row.exit_kind == "return" and row.exit_node.value is not None and not (isinstance(row.exit_node.value, ast.Name) and row.exit_node.value.id == resvar):
-            res = res + [ast.unparse(row.exit_node.value)]          # early return of the value
-        got = "raise" if row.exit_kind == "raise" and "TextXSemanticError" in row.exit_text() else ("one" if res[-1:] and res[-1].endswith("[0]") else "none" if res[-1:] == ["None"] else "?")
-        if got != want: out.append(Finding("C07", "C07.a", "textx/scoping/providers.py", "PlainName.__call__", row.exit_text() or (res[-1] if res else ""), "with %s matching object(s) the provider yields %s, documented %s" % (n_ if n_ < 2 else ">=2", got, want)))
-    sel = next((c for c in calls(reg) if callee_name(c) == "get_children"), None)
+        val = None
+        if row.exit_kind == "return" and row.exit_node.value is not None:
+            v = row.exit_node.value
+            if isinstance(v, ast.Name):
+                asg = [e for e in row.effects if isinstance(e, ast.Assign) and any(isinstance(tg, ast.Name) and tg.id == v.id for tg in e.targets)]
+                val = ast.unparse(asg[-1].value) if asg else v.id
+            else: val = ast.unparse(v)
+        got = "raise" if row.exit_kind == "raise" and "TextXSemanticError" in row.exit_text() else ("one" if val is not None and val.endswith("[0]") else "none" if val == "None" or (row.exit_kind in ("fall",) or (row.exit_kind == "return" and row.exit_node.value is None)) else "?")
+        ob("C07", "C07.a", "textx/scoping/providers.py", "PlainName.__call__", "%s candidate(s) -> %s" % (n_ if n_ < 2 else ">=2", got), got == want)
+        if got != want: out.append(Finding("C07", "C07.a", "textx/scoping/providers.py", "PlainName.__call__", row.exit_text() or (val or ""), "with %s matching object(s) the provider yields %s, documented %s" % (n_ if n_ < 2 else ">=2", got, want)))
+    sel = next((c for c in calls(fn, own=True) if callee_name(c) == "get_children"), None)
     inst += 1
     su = ast.unparse(sel.args[0]) if sel else ""
     if not ("obj_ref.obj_name" in su and "textx_isinstance(x, obj_ref.cls)" in su and "get_model(obj)" in ast.unparse(sel.args[1])):
